@@ -181,6 +181,10 @@ func TestVerifC07(t *testing.T) {
 				break
 			}
 			c.Count("tokens_checked", 1)
+			if pg := m.page(); pg != nil {
+				// distinct (world, item under the cursor, kind of page, mode, last key) situations in which UI and model agreed
+				c.Nontrivial(fmt.Sprintf("state|%d|%s|%v|%s|%s", n, pg.current().Key(), pg.list, m.mode, strings.SplitN(tk.desc, " ", 2)[0]))
+			}
 			c.Count("tok:"+strings.SplitN(tk.desc, " ", 2)[0], 1)
 		}
 		if p := m.page(); p != nil {
